@@ -113,7 +113,7 @@ strict_grammar = ('RINGInput', {
     'C_Charge': All('ChargeChain', 'ConstraintNumber'),
     'ChargeChain': All('Charge', Optional(All('Boolean', 'ChargeChain'))),
     'Charge': All('ReactantName', Filler('.charge')),
-    'C_Cylic': All('ReactantName', Filler('is cyclic')),
+    'C_Cyclic': All('ReactantName', Filler('is cyclic')),
     'C_Characteristic': Either('C_Aromatic', 'C_Oxygenate', 'C_Heteroaromatic',
                                'C_Bridged', 'C_DeclaredCharacteristic',
                                'C_Smiles', 'C_Formula'),
@@ -121,7 +121,7 @@ strict_grammar = ('RINGInput', {
     'C_Oxygenate': All('ReactantName', Filler('is oxygenate')),
     'C_Heteroaromatic': All('ReactantName', Filler('is heteroaromatic')),
     'C_Bridged': All('ReactantName', Filler('is bridged')),
-    'C_Declaredcharacteristic': All('ReactantName', Filler('is'),
+    'C_DeclaredCharacteristic': All('ReactantName', Filler('is'),
                                     'CharacteristicName'),
     'CharacteristicName': String(),
     'C_Smiles': All('ReactantName', Filler('is'), 'Smiles'),
@@ -130,6 +130,17 @@ strict_grammar = ('RINGInput', {
                      'MolecularFormulaChain'),
     'MolecularFormulaChain': All('ElementSymbol', Optional(Number()),
                                  Optional('MolecularFormulaChain')),
+    'ElementSymbol': Literals([
+        'H', 'He', 'Li', 'Be', 'B', 'C', 'N', 'O', 'F', 'Ne', 'Na', 'Mg', 'Al',
+        'Si', 'P', 'S', 'Cl', 'Ar', 'K', 'Ca', 'Sc', 'Ti', 'V', 'Cr', 'Mn',
+        'Fe', 'Co', 'Ni', 'Cu', 'Zn', 'Ga', 'Ge', 'As', 'Se', 'Br', 'Kr', 'Rb',
+        'Sr', 'Y', 'Zr', 'Nb', 'Mo', 'Tc', 'Ru', 'Rh', 'Pd', 'Ag', 'Cd', 'In',
+        'Sn', 'Sb', 'Te', 'I', 'Xe', 'Cs', 'Ba', 'La', 'Ce', 'Pr', 'Nd', 'Pm',
+        'Sm', 'Eu', 'Gd', 'Tb', 'Dy', 'Ho', 'Er', 'Tm', 'Yb', 'Lu', 'Hf', 'Ta',
+        'W', 'Re', 'Os', 'Ir', 'Pt', 'Au', 'Hg', 'Tl', 'Pb', 'Bi', 'Po', 'At',
+        'Rn', 'Fr', 'Ra', 'Ac', 'Th', 'Pa', 'U', 'Np', 'Pu', 'Am', 'Cm', 'Bk',
+        'Cf', 'Es', 'Fm', 'Md', 'No', 'Lr', 'Rf', 'Db', 'Sg', 'Bh', 'Hs', 'Mt',
+        'Ds', 'Rg', 'Cn', 'Nh', 'Fl', 'Mc', 'Lv', 'Ts', 'Og']),
     'C_Fragment': All('ReactantName', Filler('contains'),
                       Optional(All('ConstraintNumber', Filler('of'))),
                       'FragmentName'),
